@@ -404,7 +404,10 @@ func guardedByFieldFact(c *Ctx, fn *ssa.Function, target ssa.Instruction, field 
 func ruleR06cd(c *Ctx) {
 	const rule = "R06c"
 	runnerField := c.MustField(rule, pkgJob, "Runner", "runner")
-	callbackField := c.MustField(rule, pkgBatching, "pending", "callback")
+	callbackField := c.MustFieldLike(rule, pkgBatching, "pending", "callback", func(t types.Type) bool {
+		sig, ok := t.Underlying().(*types.Signature)
+		return ok && sig.Params().Len() == 0 && sig.Results().Len() == 0
+	})
 	terminated := c.IfaceMethod(pkgJob, "Job", "Terminated")
 	if runnerField == nil || callbackField == nil || terminated == nil {
 		if terminated == nil {
@@ -549,33 +552,82 @@ func ruleR06cd(c *Ctx) {
 					o = fn.Origin()
 				}
 				k := fnName(o) + ":Terminated-on-received-job"
-				fromChan := false
 				recvVal := call.Common().Value
 				if !call.Common().IsInvoke() && len(call.Common().Args) > 0 {
 					recvVal = call.Common().Args[0]
 				}
-				for _, r := range roots(recvVal, nil) {
-					if e, ok := r.(*ssa.Extract); ok {
-						if sel, ok := e.Tuple.(*ssa.Select); ok {
-							// which state delivers this extract? recv values start at index 2
-							ri := 2
-							for _, st := range sel.States {
-								if st.Dir == types.RecvOnly {
-									if ri == e.Index {
-										cell := chanCellCtx(c, st.Chan, 0)
-										for _, sc := range sendCells {
-											if sc != nil && cell != nil && (sc == cell || (sc.Pos().IsValid() && sc.Pos() == cell.Pos())) {
-												fromChan = true
-											}
-										}
-									}
-									ri++
-								}
-							}
+				// received from the channel the worker sends successful jobs to — directly, or as the argument every
+				// caller of a helper of the package passes (`r.onJobTerminated(job)`)
+				var fromSuccessChan func(v ssa.Value, in *ssa.Function, depth int) bool
+				matches := func(ch ssa.Value) bool {
+					cell := chanCellCtx(c, ch, 0)
+					for _, sc := range sendCells {
+						if sc != nil && cell != nil && (sc == cell || (sc.Pos().IsValid() && sc.Pos() == cell.Pos())) {
+							return true
 						}
 					}
+					return false
 				}
-				if fnPkgPath(o) == pkgJob && o.Name() == "Run" && fromChan {
+				fromSuccessChan = func(v ssa.Value, in *ssa.Function, depth int) bool {
+					rs := roots(v, nil)
+					if len(rs) == 0 || depth > 3 {
+						return false
+					}
+					for _, r := range rs {
+						okRoot := false
+						switch x := r.(type) {
+						case *ssa.Extract:
+							if sel, ok := x.Tuple.(*ssa.Select); ok {
+								// which state delivers this extract? recv values start at index 2
+								ri := 2
+								for _, st := range sel.States {
+									if st.Dir == types.RecvOnly {
+										if ri == x.Index && matches(st.Chan) {
+											okRoot = true
+										}
+										ri++
+									}
+								}
+							}
+							if u, ok := x.Tuple.(*ssa.UnOp); ok && u.Op == token.ARROW && x.Index == 0 && matches(u.X) {
+								okRoot = true
+							}
+						case *ssa.UnOp:
+							if x.Op == token.ARROW && matches(x.X) {
+								okRoot = true
+							}
+							if x.Op == token.MUL && x.X != v {
+								okRoot = fromSuccessChan(x.X, in, depth+1)
+							}
+						case *ssa.Parameter:
+							oo := origin(in)
+							if fnPkgPath(oo) == pkgJob {
+								idx := paramIndex(x)
+								n := 0
+								all := true
+								for _, site := range c.CallersOf(in) {
+									if site.Parent() == nil || idx >= len(site.Common().Args) {
+										continue
+									}
+									if syn := site.Parent().Synthetic; syn != "" && !strings.HasPrefix(syn, "instance of") {
+										continue // promoted-method / bound-method wrappers: never called themselves
+									}
+									n++
+									if !fromSuccessChan(site.Common().Args[idx], site.Parent(), depth+1) {
+										all = false
+									}
+								}
+								okRoot = n > 0 && all
+							}
+						}
+						if !okRoot {
+							return false
+						}
+					}
+					return true
+				}
+				fromChan := fromSuccessChan(recvVal, fn, 0)
+				if fnPkgPath(o) == pkgJob && fromChan {
 					obl.expect(k, call.Pos(), "Terminated is invoked on a job received from the channel the worker sends successful jobs to")
 				} else {
 					obl.violate(k, call.Pos(), "Job.Terminated (which fires the acknowledgement callbacks) is invoked on a value that was not received from the worker's success channel", nil)
@@ -682,6 +734,15 @@ func chanCellCtx(c *Ctx, v ssa.Value, depth int) ssa.Value {
 		return cell
 	}
 	if cell := chanCell(v); cell != nil {
+		// a cell assigned exactly once (a parameter spilled because a literal captures it, `ch := make(…)`):
+		// the channel is what was assigned
+		if a, ok := cell.(*ssa.Alloc); ok {
+			if st := singleStore(a); st != nil {
+				if r := chanCellCtx(c, st, depth+1); r != nil {
+					return r
+				}
+			}
+		}
 		return cell
 	}
 	if u, ok := v.(*ssa.UnOp); ok && u.Op == token.MUL {
